@@ -283,6 +283,9 @@ def run(ctx):
         start = base + timedelta(seconds=sec)
         if rng.random() < 0.15:
             start = datetime(rng.choice([2016, 2019, 2020]), 12, 31, 23, 59, rng.randrange(60))
+        if rng.random() < 0.15:
+            start = start.replace(microsecond=rng.choice([500000, 250000, 750000, 123456, 999000]))  # "from any start instant": between two seconds
+            ctx.count("runs_from_sub_second_start")
         k = rng.randrange(1, 25)
         dur = k * step
         r = rng.random()
